@@ -196,6 +196,42 @@ def handleInFlight (c : Json) : JE Json := do
     ("alone", J.mkStrs (runs.map Flight.runOut)),
     ("complete", Json.bool (Flight.allDone cs st))]
 
+/-! ### family "branchmix": the successor list of a branching node (Opt machine on node keys) -/
+
+def idsOf (hs : List EinoV.C10.Hd) : String := Tools.joinWith "," (hs.map fun h => toString h.id)
+
+/-- case: {"family":"branchmix","direct":[ids of the direct successors],"spare":n (spare capacity of the
+           compiled runner's writeTo slice),"calls":[{"sel":[id selected by branch 0, by branch 1, …]}],
+           "sched":[thread = call index]}
+    The successor list of a run is collected like an option list (`Opt.collect`): with the Expected fact
+    `branchSuccessorsFresh` into a slice made by the run (branch selections, then the direct successors
+    appended to it); without it the runner's own writeTo slice would be the first group taken as it is.
+    answer per call: the successor ids (comma separated, in collection order). -/
+def handleBranchMix (c : Json) : JE Json := do
+  let direct ← J.natList c "direct"
+  let spare := J.natD c "spare" 0
+  let sels ← (← J.arr c "calls").mapM fun j => J.natList j "sel"
+  let sched ← J.natList c "sched"
+  let wt : RawGroup := { shared := 0, desig := false, target := [], opts := direct, spare := spare }
+  -- heap: array 0 = writeTo of the compiled runner; then one array per (call, branch) = what the condition returned
+  let rec mk (rest : List (List Nat)) (h : EinoV.C10.Heap) (acc : List (List EinoV.C10.Slice)) :
+      EinoV.C10.Heap × List (List EinoV.C10.Slice) :=
+    match rest with
+    | [] => (h, acc.reverse)
+    | sel :: more =>
+      let r := sel.foldl (fun (st : EinoV.C10.Heap × List EinoV.C10.Slice) id =>
+        (st.1 ++ [[(⟨id, none⟩ : EinoV.C10.Hd)]], st.2 ++ [(⟨st.1.length, 0, 1, 1⟩ : EinoV.C10.Slice)])) (h, [])
+      let gs := if Expected.C09.branchSuccessorsFresh then r.2 ++ [sliceOf 0 wt] else sliceOf 0 wt :: r.2
+      mk more r.1 (gs :: acc)
+  let (h0, prog) := mk sels [arrayOf wt] []
+  let seen := Opt.seenAll Expected.C09.branchSuccessorsFresh h0 prog sched
+  let al := prog.map fun gs => idsOf ((gs.map h0.read).flatten)
+  let inter := seen.map fun s => match s with | some hs => idsOf hs | none => "?"
+  pure <| Json.mkObj [
+    ("interleaved", J.mkStrs inter),
+    ("alone", J.mkStrs al),
+    ("complete", Json.bool (seen.all (·.isSome)))]
+
 /-! ### family "toollist": a ToolsNode run with a `WithToolList` call option -/
 
 def parseTool (j : Json) : JE (String × String) := do pure ((← J.str j "name"), (← J.str j "mark"))
@@ -298,6 +334,7 @@ def handle (c : Json) : JE Json :=
   | "optshare" => handleOptShare c
   | "cbshare" => handleCbShare c
   | "inflight" => handleInFlight c
+  | "branchmix" => handleBranchMix c
   | "toollist" => handleToolList c
   | _ => handleLayered c
 
